@@ -43,6 +43,14 @@ pub static STATS: Stats = Stats {
     big_cpu_ns_max: AtomicU64::new(0),
 };
 
+/// Set when the start-up probe found that reader entry points do not return on
+/// a directive line that runs into end of input: members of that class are then
+/// not executed in-process (they would never give the worker thread back).
+pub static GATE_CLOSED: std::sync::atomic::AtomicBool = std::sync::atomic::AtomicBool::new(false);
+pub static SKIPPED_CLASS: AtomicU64 = AtomicU64::new(0);
+/// (cpu ns, description) of the most expensive call on an input <= SMALL_INPUT
+pub static SMALL_MAX: Mutex<(u64, String)> = Mutex::new((0, String::new()));
+
 pub static KINDS: Mutex<BTreeSet<String>> = Mutex::new(BTreeSet::new());
 thread_local! {
     static KINDS_SEEN: RefCell<HashSet<String>> = RefCell::new(HashSet::new());
@@ -170,6 +178,10 @@ pub fn spin_class(input: &[u8], opt: usize) -> &'static str {
 /// that is reported (for the twin) and the BOM form is not executed in-process;
 /// if the twin returns, the input itself is executed as usual.
 pub fn exercise(t: &Tgt, entry: Entry, opt: usize, input: &[u8]) -> CaseOut {
+    if entry.is_reader() && GATE_CLOSED.load(Ordering::Relaxed) && spin_class(input, opt) == "directive-line-at-eof" {
+        SKIPPED_CLASS.fetch_add(1, Ordering::Relaxed);
+        return CaseOut { applicable: false, oks: 0, errs: 0, first_kind: None, cpu_s: 0.0, bad: None };
+    }
     if entry.is_reader() && has_bom(input) && spin_class(input, opt) == "directive-line-at-eof" {
         let twin = effective_stream(input, opt);
         let mut out = exercise_raw(t, entry, opt, &twin);
@@ -228,7 +240,21 @@ fn exercise_raw(t: &Tgt, entry: Entry, opt: usize, input: &[u8]) -> CaseOut {
     if input.len() <= SMALL_INPUT {
         STATS.small_calls.fetch_add(1, Ordering::Relaxed);
         STATS.small_cpu_ns_sum.fetch_add(ns, Ordering::Relaxed);
-        STATS.small_cpu_ns_max.fetch_max(ns, Ordering::Relaxed);
+        if STATS.small_cpu_ns_max.fetch_max(ns, Ordering::Relaxed) < ns && ns > 50_000_000 {
+            let mut g = SMALL_MAX.lock().unwrap();
+            if ns > g.0 {
+                *g = (
+                    ns,
+                    format!(
+                        "{} via {} opt {opt} on {} bytes starting {:?}",
+                        t.name(),
+                        entry.name(),
+                        input.len(),
+                        String::from_utf8_lossy(&input[..input.len().min(40)])
+                    ),
+                );
+            }
+        }
         if cpu > CPU_BOUND_S && out.bad.is_none() {
             out.bad = Some(Bad::Cpu(cpu));
         }
